@@ -239,7 +239,10 @@ impl AsyncReader {
     ///
     /// Returns `Some` with an index if a request was submitted. Otherwise, `None`.
     pub fn submit(&mut self, io_handle: &IoHandle, user_data: u64) -> Option<usize> {
-        if self.is_done_requesting() {
+        // Only the page numbers stored in the cell are known up front; the remaining ones are
+        // discovered as pages are parsed (`continue_parse`). Nothing can be requested beyond the
+        // pages known so far.
+        if self.is_done_requesting() || self.request_index >= self.pages.len() {
             return None;
         }
 
